@@ -360,6 +360,72 @@ def i4(ctx):
 
 
 # ---------------------------------------------------------------------------------------------
+@rule('I5', floor=3, title='an iterator that is advanced by hand is compared with its end before every dereference')
+def i5(ctx):
+    """`*it` / `++it` on an iterator that is not driven by a range-for is only defined when `it` is
+    not the end iterator.  Every dereference must be dominated by a comparison of that iterator with
+    an end() / cend() / crend() sentinel, and the "at end" edge of the comparison must not lead to
+    the dereference (a length checked once up front is no substitute: user code that runs between
+    two steps can shrink the underlying container)."""
+    prog = ctx.cxx()
+    n = 0
+    for f in live_funcs(prog):
+        if f.body is None:
+            continue
+        derefs = []
+        for c in f.body.find('CXXOperatorCallExpr'):
+            if c.callee_name() == 'operator*' and len(c.kids) == 2:
+                v = strip_casts(c.kids[1])
+                vt = ((v.type or '') + ' ' + ((v.ref or {}).get('type') or '')) if v is not None else ''
+                # hand-driven iterators over Python iterables and over the node array; the hidden
+                # iterators of range-for statements (`__begin1`) are driven by the statement itself
+                if v is not None and v.kind == 'DeclRefExpr' and (v.ref or {}).get('kind') == 'VarDecl' and \
+                        'iterator' in vt and not (member_path(v) or '').startswith('__') and \
+                        ('pybind11' in vt or 'py::' in vt or 'Node' in vt):
+                    derefs.append((c, member_path(v)))
+        if not derefs:
+            continue
+        cfg = cfg_of(f)
+        parent = enclosing_map(f.body)
+        for c, v in derefs:
+            # iterators that a for-statement header drives are tested by that header
+            hdr = [l for l in ancestors(c, parent) if l.kind == 'ForStmt' and len(l.kids) > 2 and
+                   l.kids[2] is not None and v in (l.kids[2].text(4) or '')]
+            if hdr:
+                continue
+            rn = cfg.cnode_of(c)
+            if rn is None:
+                continue
+            n += 1
+            ok = False
+            for cn in cfg.nodes:
+                if cn.kind != 'cond' or cn.ast is None:
+                    continue
+                a = cn.ast
+                t = a.text(5)
+                is_cmp = (a.kind == 'BinaryOperator' and a.op in ('==', '!=')) or \
+                    (a.kind == 'CXXOperatorCallExpr' and a.callee_name() in ('operator==', 'operator!='))
+                if not is_cmp or not re.search(r'\b%s\b' % re.escape(v), t) or \
+                        not re.search(r'\b(c?r?end)\(', t):
+                    continue
+                if not cfg.dominates(cn.idx, rn):
+                    continue
+                tr = cfg.forward_reachable([w for (w, lab) in cfg.succ[cn.idx] if lab is True])
+                fl = cfg.forward_reachable([w for (w, lab) in cfg.succ[cn.idx] if lab is False])
+                if (rn in tr) != (rn in fl):
+                    ok = True
+            owner = f if not f.is_lambda else prog.funcs.get(f.parent, f)
+            ctx.check('%s/*%s' % (short(owner), 'iterator'), ok,
+                      '%s: `*%s` is reached only after `%s` was compared with the end iterator'
+                      % (inst(f), v, v),
+                      '%s: `*%s` can be reached without `%s` having been compared with the end '
+                      'iterator on that path: an exhausted iterator is dereferenced (a callback that '
+                      'shrinks the sequence between two steps is enough) - NULL object / crash'
+                      % (inst(f), v, v), c.loc)
+    ctx.require(n >= 3, 'only %d hand-driven iterator dereferences found' % n)
+
+
+# ---------------------------------------------------------------------------------------------
 @rule('I3', floor=2, title='entry(i)/child(i): range test and negative-index normalisation dominate every use of the index')
 def i3(ctx):
     prog = ctx.cxx()
